@@ -50,7 +50,9 @@ CLASSES = [
      ],
      "slots": [("act", ["int"], "void"), ("act2", ["QString", "int"], "void"), ("setNext", ["VObj*"], "void")],
      "methods": [("compute", ["int"], "int"), ("child", [], "VObj*"), ("put", ["int"], "void"), ("put", ["QString"], "void"),
-                 ("label", [], "QString"), ("ratio", ["double", "double"], "double"), ("flag", [], "bool")]},
+                 ("label", [], "QString"), ("ratio", ["double", "double"], "double"), ("flag", [], "bool"),
+                 # one name, three argument counts (as a slot with default arguments appears in the metatypes): a call is matched against the overload of ITS count
+                 ("over", [], "void"), ("over", ["int"], "void"), ("over", ["int", "QString"], "void")]},
     {"name": "VSub", "supers": ["VObj"], "qobject": True, "enums": [],
      "props": [{"name": "extra", "type": "int", "read": True, "write": True, "notify": "extraChanged"}],
      "signals": [("extraChanged", [], "void")], "slots": [], "methods": [("subOnly", [], "int")]},
